@@ -249,6 +249,27 @@ def rateLimitedB (cfg : Cfg) (log : Log) : Bool :=
     (connectAt log i).isNone || !(connectAt log j == some true) ||
     decide (timeAt log i + cfg.interval ≤ timeAt log j + 2 * cfg.slack)
 
+def isChk (c : Nat) : Option Ev → Bool
+  | some (.chk c' _) => c' == c
+  | _ => false
+
+/-- Attempts do not interleave: between the moment a communicate call finds the communicator disconnected
+(`chk c false`) and the connect attempt it then makes, no other connect attempt happens.  (In the code this is what
+`accessLock` around the rate test and the attempt gives; the transaction model has no `accessLock`, so the clause is a
+hypothesis of `reconnect_rate_limited` there and a monitored clause on the implementation.) -/
+def AttemptsAtomic (log : Log) : Prop :=
+  ∀ p j c, p < j → evAt log p = some (.chk c false) → (∃ ok od, evAt log j = some (.connect c ok od)) →
+    (∀ m, p < m → m < j → isChk c (evAt log m) = false) → ∀ m, p < m → m < j → connectAt log m = none
+
+def attemptsAtomicB (log : Log) : Bool :=
+  allBelow log.length fun j =>
+    match evAt log j with
+    | some (.connect c _ _) =>
+      allBelow j fun p =>
+        !(evAt log p == some (.chk c false)) || !(allBetween p j fun m => !isChk c (evAt log m)) ||
+        (allBetween p j fun m => (connectAt log m).isNone)
+    | _ => true
+
 def RateLimitedAll (cfg : Cfg) (log : Log) : Prop := rateLimitedAllB cfg log = true
 def RateLimited (cfg : Cfg) (log : Log) : Prop := rateLimitedB cfg log = true
 
